@@ -104,7 +104,18 @@ func checkC15(c *Check) {
 		})
 		return found
 	}
-	ruleErrorsNotDiscarded(c, p, "R15.1", fns, func(f *ssa.Function) bool { return io[f] || returnsLatch(f) }, map[string]string{
+	ioPrimitive := func(f *ssa.Function) bool {
+		// the library's own read primitives: their error is the source's error
+		if f == nil || f.Pkg == nil || f.Pkg.Pkg.Path() != "io" {
+			return false
+		}
+		switch f.Name() {
+		case "ReadFull", "ReadAtLeast", "CopyN", "Copy", "CopyBuffer":
+			return true
+		}
+		return false
+	}
+	ruleErrorsNotDiscarded(c, p, "R15.1", fns, func(f *ssa.Function) bool { return io[f] || returnsLatch(f) || ioPrimitive(f) }, map[string]string{
 		"Frame.Reset#discard:Blocks.close": "documented: pending data may be dropped when Reset is called without Close (writer.go: 'w.Close must be called before Reset or pending data may be dropped')",
 	})
 	ruleErrorsNotAbsorbed(c, p, "R15.E", fns, errAbsorbExempt)
